@@ -19,6 +19,13 @@ output for every other translated function is untouched.
                                                       ->  `n = E; T1 = n; ...; (Ti skipped) ...; Tk = n`.
  H4 module constants bound by `A, B, ... = range(k)` (top level, each name bound exactly once in the module,
     `range` not rebound)                              ->  their values, where the name is not a local.
+ H7 `try: x = self.<a> [; ...] except AttributeError: ...` (every body statement binds a local to a DECLARED attribute)
+                                                      ->  the body: the attributes of the spec always exist (the state a
+    tie starts from is the one `__new__` / `__init__` leave).
+ H8 a local bound once, at the top level of the method, to a declared `Dict` attribute, in a method that calls no method
+    of `self` and never assigns that attribute          ->  the attribute itself (`_map = self._map; _map.clear()`).
+ H9 `T1, T2 = E1, E2` with a store place among the targets ->  `_h1 = E1; _h2 = E2; T1 = _h1; T2 = _h2` (Python's order).
+ H10 `return self.m(..)[i]` / `x = self.m(..)[i]`       ->  `_h = self.m(..)` first.
  H6 (classes with an abstract `backend` only) `a, b, ... = f(...)` (every target a plain name)
                                                       ->  `_h<n> = f(...); a, b, ... = _h<n>` (`_h<n>` a fresh local): the
     call's effect on the object happens before the unpacking can fail, as in Python.
@@ -31,7 +38,7 @@ from __future__ import annotations
 import ast
 import copy
 
-RAW_DICT = ('__setitem__', '__delitem__', 'clear', 'pop', 'popitem')
+RAW_DICT = ('__setitem__', '__delitem__', 'clear', 'pop', 'popitem', 'setdefault', '__contains__', '__getitem__')
 
 
 def _copy_fdef(fdef):
@@ -119,6 +126,24 @@ def prepass(fdef, tree, cls, spec, notes):
         return out
     new.body = _map_blocks(new.body, splice)
 
+    # H7 ------------------------------------------------------------------------------------------
+    declared0 = set(cls.get('state', {}))
+
+    def drop_attr_probe(stmts):
+        out = []
+        for st in stmts:
+            if isinstance(st, ast.Try) and not st.orelse and not st.finalbody and len(st.handlers) == 1 \
+                    and isinstance(st.handlers[0].type, ast.Name) and st.handlers[0].type.id == 'AttributeError' \
+                    and st.handlers[0].name is None and st.body \
+                    and all(isinstance(b, ast.Assign) and len(b.targets) == 1 and isinstance(b.targets[0], ast.Name)
+                            and _is_self_attr(b.value, self_name, declared0) for b in st.body):
+                notes.add('H7 attribute probe')
+                out.extend(st.body)
+            else:
+                out.append(st)
+        return out
+    new.body = _map_blocks(new.body, drop_attr_probe)
+
     # H2 ------------------------------------------------------------------------------------------
     owner = spec['qualname'].split('.')[0]
     cdef = None
@@ -144,6 +169,25 @@ def prepass(fdef, tree, cls, spec, notes):
                 n.args = [ast.copy_location(ast.Name(id=self_name, ctx=ast.Load()), f)] + n.args
             return n
     new = Super().visit(new)
+    # `a = super()` (bound once, used only as `a.m(...)`): the same rewrite through the alias
+    if dict_based:
+        st_count = _stores(new)
+        sup = [st for st in new.body if isinstance(st, ast.Assign) and len(st.targets) == 1
+               and isinstance(st.targets[0], ast.Name) and st_count.get(st.targets[0].id) == 1
+               and isinstance(st.value, ast.Call) and isinstance(st.value.func, ast.Name)
+               and st.value.func.id == 'super' and not st.value.args and not st.value.keywords]
+        for bind in sup:
+            a = bind.targets[0].id
+            uses = [n for n in ast.walk(new) if isinstance(n, ast.Name) and n.id == a and isinstance(n.ctx, ast.Load)]
+            calls = [n for n in ast.walk(new) if isinstance(n, ast.Call) and isinstance(n.func, ast.Attribute)
+                     and isinstance(n.func.value, ast.Name) and n.func.value.id == a and n.func.attr in RAW_DICT]
+            if len(uses) != len(calls) or any((n.lineno, n.col_offset) <= (bind.lineno, bind.col_offset) for n in uses):
+                continue
+            for n in calls:
+                n.func.value = ast.copy_location(ast.Name(id='dict', ctx=ast.Load()), n.func.value)
+                n.args = [ast.copy_location(ast.Name(id=self_name, ctx=ast.Load()), n.func)] + n.args
+            new.body = [st for st in new.body if st is not bind]
+            notes.add('H2 %s = super()' % a)
 
     # H4 ------------------------------------------------------------------------------------------
     consts = range_constants(tree, mod) if mod is not None else {}
@@ -195,16 +239,54 @@ def prepass(fdef, tree, cls, spec, notes):
         return out
     new.body = _map_blocks(new.body, unchain)
 
-    # H6 ------------------------------------------------------------------------------------------
+    # H9 / H10 -----------------------------------------------------------------------------------
     counter = [0]
+
+    def fresh_tmp():
+        counter[0] += 1
+        return '_h%d' % counter[0]
+
+    def split_stores(stmts):
+        out = []
+        for st in stmts:
+            if isinstance(st, ast.Assign) and len(st.targets) == 1 and isinstance(st.targets[0], ast.Tuple) \
+                    and isinstance(st.value, ast.Tuple) and len(st.value.elts) == len(st.targets[0].elts) \
+                    and any(isinstance(t, ast.Subscript) for t in st.targets[0].elts) \
+                    and all(isinstance(t, (ast.Subscript, ast.Name)) for t in st.targets[0].elts):
+                tmps = [fresh_tmp() for _ in st.value.elts]
+                if any(t in scope for t in tmps):
+                    out.append(st)
+                    continue
+                notes.add('H9 tuple assignment to store places')
+                for t, e in zip(tmps, st.value.elts):
+                    out.append(ast.copy_location(ast.Assign(
+                        targets=[ast.copy_location(ast.Name(id=t, ctx=ast.Store()), st)], value=e), st))
+                for t, tg in zip(tmps, st.targets[0].elts):
+                    out.append(ast.copy_location(ast.Assign(
+                        targets=[tg], value=ast.copy_location(ast.Name(id=t, ctx=ast.Load()), st)), st))
+                continue
+            val = st.value if isinstance(st, (ast.Return, ast.Assign)) else None
+            if isinstance(val, ast.Subscript) and isinstance(val.value, ast.Call) \
+                    and isinstance(val.value.func, ast.Attribute) and isinstance(val.value.func.value, ast.Name) \
+                    and val.value.func.value.id == self_name:
+                t = fresh_tmp()
+                if t not in scope:
+                    notes.add('H10 item of a method call result')
+                    out.append(ast.copy_location(ast.Assign(
+                        targets=[ast.copy_location(ast.Name(id=t, ctx=ast.Store()), st)], value=val.value), st))
+                    val.value = ast.copy_location(ast.Name(id=t, ctx=ast.Load()), st)
+            out.append(st)
+        return out
+    new.body = _map_blocks(new.body, split_stores)
+
+    # H6 ------------------------------------------------------------------------------------------
 
     def untuple(stmts):
         out = []
         for st in stmts:
             if isinstance(st, ast.Assign) and len(st.targets) == 1 and isinstance(st.targets[0], (ast.Tuple, ast.List)) \
                     and all(isinstance(e, ast.Name) for e in st.targets[0].elts) and isinstance(st.value, ast.Call):
-                counter[0] += 1
-                tmp = '_h%d' % counter[0]
+                tmp = fresh_tmp()
                 if tmp in scope:
                     out.append(st)
                     continue
@@ -218,6 +300,34 @@ def prepass(fdef, tree, cls, spec, notes):
         return out
     if cls.get('backend'):
         new.body = _map_blocks(new.body, untuple)
+
+    # H8 ------------------------------------------------------------------------------------------
+    # a local bound ONCE to a declared dict attribute, in a method that calls no method of self and never assigns that
+    # attribute, IS that attribute
+    st_count = _stores(new)
+    calls_self = any(isinstance(n, ast.Call) and isinstance(n.func, ast.Attribute) and isinstance(n.func.value, ast.Name)
+                     and n.func.value.id == self_name for n in ast.walk(new))
+    for bind in list(new.body):
+        if isinstance(bind, ast.Assign) and len(bind.targets) == 1 and isinstance(bind.targets[0], ast.Name) \
+                and st_count.get(bind.targets[0].id) == 1 and _is_self_attr(bind.value, self_name, declared0) \
+                and str(cls['state'][bind.value.attr]).startswith('Dict') and not calls_self:
+            x, attr = bind.targets[0].id, bind.value.attr
+            assigned = any(isinstance(n, ast.Attribute) and isinstance(n.ctx, (ast.Store, ast.Del))
+                           and _is_self_attr(n, self_name, {attr}) for n in ast.walk(new))
+            early = any(isinstance(n, ast.Name) and n.id == x and isinstance(n.ctx, ast.Load)
+                        and (n.lineno, n.col_offset) <= (bind.lineno, bind.col_offset) for n in ast.walk(new))
+            if assigned or early:
+                continue
+
+            class Sub(ast.NodeTransformer):
+                def visit_Name(self, n):
+                    if n.id == x and isinstance(n.ctx, ast.Load):
+                        return ast.copy_location(ast.Attribute(
+                            value=ast.copy_location(ast.Name(id=self_name, ctx=ast.Load()), n), attr=attr,
+                            ctx=ast.Load()), n)
+                    return n
+            new.body = [Sub().visit(st) for st in new.body if st is not bind]
+            notes.add('H8 local %s is self.%s' % (x, attr))
 
     # H5 ------------------------------------------------------------------------------------------
     stores = _stores(new)
